@@ -22,6 +22,15 @@
 (* whose kind changed as *updated* (finding F18: TLC rejects it, and so did the real code).      *)
 (* FALSE is the repaired diff (delete + create; "fix: object registry handles a change of kind   *)
 (* as delete + create instead of update").                                                       *)
+(* ChanCap is the buffer of a watcher's event channel (10 in the code).  applyConfig sends with  *)
+(* a blocking `watcher.eventChan <- event` while holding the registry's mutex: when a watcher's  *)
+(* handler is slow and its channel is full, the registry (and with it the intake of further      *)
+(* snapshots) waits for room; modelled as ApplyConfig being disabled until every watcher that    *)
+(* gets an event has room (the state in which some watchers already have their event and the     *)
+(* registry waits for another one is not distinguished: the handlers do not depend on each       *)
+(* other).  DropWhenFull = TRUE is the other shape such a send can take - a non-blocking send    *)
+(* that gives up when the channel is full, after the registry's and the watcher's entity maps    *)
+(* have moved on: the diff is never computed again, TLC rejects it (Reconciled).                 *)
 (* Recover = TRUE is the pinned tree: Init/Inherit/CloseWithRecovery recover a panicking         *)
 (* callback; FALSE models the loss of that recovery (the handler dies).                          *)
 EXTENDS Lifecycle, TLC
@@ -29,7 +38,9 @@ EXTENDS Lifecycle, TLC
 CONSTANTS Watchers,             \* subset of {"sup", "rctc"}
           MaxPanics,            \* bound on scripted panics
           KindChangeIsUpdate,
-          Recover
+          Recover,
+          ChanCap,              \* buffer of ObjectEntityWatcher.eventChan
+          DropWhenFull          \* FALSE: blocking send (the code); TRUE: non-blocking send that drops the event
 
 StoreOf(k) == IF k \in BizKinds THEN "biz" ELSE IF k \in PipeKinds THEN "pipe" ELSE "gate"
 Stores == {"biz", "gate", "pipe"}
@@ -83,7 +94,10 @@ ApplyConfig(s, pan) ==
                   upd |-> [x \in Names |-> IF x \in asUpdate /\ Wants(w, s[x].k) THEN NewEnt(x) ELSE NoEnt],
                   pan |-> pan]]
         Empty(e) == e.del = NoMap /\ e.cre = NoMap /\ e.upd = NoMap
+        Full(w)  == Len(queue[w]) >= ChanCap
     IN
+    (* blocking send: the registry gets on only when every watcher that is sent an event has room *)
+    /\ DropWhenFull \/ \A w \in Watchers : Empty(Ev[w]) \/ ~Full(w)
     /\ entities' = [x \in Names |-> IF x \in gone THEN NoEnt ELSE IF x \in changed THEN NewEnt(x) ELSE entities[x]]
     (* per watcher: deleted, then created, then updated names are applied to watcher.entities *)
     /\ wents' = [w \in Watchers |-> [x \in Names |->
@@ -92,7 +106,7 @@ ApplyConfig(s, pan) ==
                      ELSE IF Ev[w].del[x] # NoEnt THEN NoEnt
                      ELSE wents[w][x]]]
     (* `if len(Delete)+len(Create)+len(Update) > 0 { watcher.eventChan <- event }` *)
-    /\ queue' = [w \in Watchers |-> IF Empty(Ev[w]) THEN queue[w] ELSE Append(queue[w], Ev[w])]
+    /\ queue' = [w \in Watchers |-> IF Empty(Ev[w]) \/ (DropWhenFull /\ Full(w)) THEN queue[w] ELSE Append(queue[w], Ev[w])]
     /\ npanic' = npanic + Cardinality(pan)
     /\ CSnapshot(s)                                   \* the contract takes note of the snapshot
     /\ UNCHANGED <<cur, store, dead, bad, badcb>>
